@@ -2,7 +2,7 @@
 # usage: prepare.sh <prefix: s4|sb> <ID> ...   creates /tmp/<prefix>-<ID> (scratch worktree of /repo HEAD) with PROPERTY.json,
 # ALREADY_USED.txt and the instruction file copied to /tmp (sub-agents are given nothing from /verif).
 pre=$1; shift
-cp /verif/tools/seed/instructions-breaking.md /tmp/s4-instructions.md
+cp /verif/tools/seed/instructions-breaking.md /tmp/s5-instructions.md
 cp /verif/tools/seed/instructions-benign.md /tmp/sb-instructions.md
 cp /verif/tools/seed/instructions-open.md /tmp/so-instructions.md
 for id in "$@"; do
